@@ -132,7 +132,7 @@ def elem_conversion(F, f):
     return False
 
 
-VEC_OK = re.compile(r'(::iter$|IntoIterator>?::into_iter$|Iterator::map$|Iterator::collect$|Result::map$|Option::map$|Iterator>?::next$|Deref>?::deref$|Try>?::branch$|Vec::new$|Vec::with_capacity$|Vec::push$|FromResidual.*::from_residual$|'
+VEC_OK = re.compile(r'(::iter$|IntoIterator( for [^>]*)?>?::into_iter$|Iterator::map$|Iterator::collect$|Result::map$|Option::map$|Iterator>?::next$|Deref>?::deref$|Try>?::branch$|Vec::new$|Vec::with_capacity$|Vec::push$|FromResidual.*::from_residual$|'
                     r'GetOutput>?::output$|IntoReturn(Once)?::into_return(_once)?$|Borrow>?::borrow$|AsRef>?::as_ref$|Box::new$|Vec::len$|Iterator::cloned$)')
 
 
@@ -172,7 +172,7 @@ def vec_traversals(chk, F, rule, cfg):
                 ok = bool(srcs)
                 if ok:
                     names = L.pipeline_calls(srcs[0], lambda x: x in (('param', 0, 1), ('deref', ('param', 0, 1))) or (x[0] == 'ref' and x[1][0] == ('ptr', ('param', 0, 1))))
-                    ok = names is not None and all(re.search(r'(Iterator::collect|Iterator::map|IntoIterator>?::into_iter|::iter|Deref>?::deref)$', n) for n in names)
+                    ok = names is not None and all(re.search(r'(Iterator::collect|Iterator::map|IntoIterator( for [^>]*)?>?::into_iter|::iter|Deref>?::deref)$', n) for n in names)
                     chk.ob(rule, 'pipeline form: %s' % (' <- '.join(n.rsplit('::', 1)[-1] for n in names) if names else '?'), ok, config=cfg, fn=fn, site='pipeline', what='vec pipeline %s' % names, found=names)
                     for m_ in [x for x in symex.subvalues(srcs[0]) if is_call(x, r'Iterator::map$')]:
                         chk.ob(rule, 'the function mapped over the elements converts its element and nothing else', len(m_[2]) == 2 and elem_conversion(F, m_[2][1]), config=cfg, fn=fn, site='map-fn', what='mapped function %s' % show(m_[2][1])[:80],
